@@ -63,7 +63,7 @@ impl RunCfg {
             (_, "C14") => 12.0,
             (_, "C15") => 10.0,
             (_, "C16") => 3.0,
-            (_, "C17") => 2.5,
+            (_, "C17") => 5.0,
             (_, "C18") => 0.6,
             (_, "C20") => 8.0,
             _ => 1.0,
@@ -274,6 +274,10 @@ where
                     let res = runner.run(&strat, |case| {
                         if stop.load(Ordering::Relaxed) && !failed.get() {
                             return Ok(());
+                        }
+                        if let Ok(dir) = std::env::var("VERIF_TRACE_CASES") {
+                            // debugging aid for hangs: the case a worker is about to run
+                            std::fs::write(format!("{dir}/{}-w{wi}.json", salt.replace('/', "-")), serde_json::to_string(&case).unwrap_or_default()).ok();
                         }
                         match guarded(|| test(&case)) {
                             Ok(rep) => {
